@@ -5,6 +5,7 @@ import http.client
 import io
 import logging
 import random
+import re
 import urllib.error
 import urllib.request
 import sys
@@ -149,9 +150,14 @@ def request_id_of(request):
     return None
 
 
+OWN_LOOK_ALIKES = set()
+
+
 def is_own(x):
-    """the caller's own ids: "own-..." (text, or bytes the caller has encoded itself) and the empty string"""
-    return x == "" or (isinstance(x, bytes) and x.startswith(b"own-")) or (isinstance(x, str) and x.startswith("own-"))
+    """the caller's own ids: "own-..." (text, or bytes the caller has encoded itself), the empty string, and the ids the
+    workload has made up to look like generated ones"""
+    return x == "" or (isinstance(x, bytes) and x.startswith(b"own-")) or (isinstance(x, str) and x.startswith("own-")) \
+        or (isinstance(x, str) and x in OWN_LOOK_ALIKES)
 
 
 def own_id_for(i, k):
@@ -701,6 +707,16 @@ def redirect_history(ctx, seed):
         own_id = None
         if rng.random() < 0.3:
             own_id = "own-r-%d" % k
+            seen_ids = [request_id_of(h) for _, h in first_hops if not is_own(request_id_of(h))]
+            if k % 7 == 3 and seen_ids:
+                # the caller's id is spelled like the ids this connection makes itself, with a number far ahead (a
+                # replayed log line, an id of another process with the same prefix)
+                m = re.fullmatch(r"(.{4})(\d{4})(.*?)(\d+)", seen_ids[-1])
+                if m:
+                    ahead = int(m.group(4)) + 5000 + k
+                    own_id = "%s%04d%s%0*d" % (m.group(1), ahead % 10000, m.group(3), len(m.group(4)), ahead)
+                    OWN_LOOK_ALIKES.add(own_id)
+                    ctx.count("own_ids_spelled_like_generated_ones")
             kw['headers'] = {'X-Request-ID': own_id}
         n0 = len(wire.hops)
         try:
